@@ -38,7 +38,7 @@ BOUND = 2.0 + 1.5
 
 
 def gen_cases(ctx) -> List[Dict[str, Any]]:
-    behaviours = ["well_behaved", "ignore_sigterm", "never_read", "flood", "flood_graceful", "close_stdout", "close_stdin",
+    behaviours = ["well_behaved", "ignore_sigterm", "never_read", "flood", "flood_graceful", "flood_junk", "close_stdout", "close_stdin",
                   "slow_start:0.4", "sigterm_slow:0.5", "sigterm_slow:1.4"]
     behaviours += [f"exit_at:{k}" for k in range(0, 6)]
     exits = ["normal", "exception", "cancel", "fail_after"]
@@ -49,7 +49,7 @@ def gen_cases(ctx) -> List[Dict[str, Any]]:
             for m in moments:
                 if ctx.tier == "quick":
                     # quick: every (behaviour, exit) with a rotating moment, plus all moments for the hostile ones
-                    hostile = b in ("ignore_sigterm", "well_behaved", "exit_at:2", "flood", "flood_graceful")
+                    hostile = b in ("ignore_sigterm", "well_behaved", "exit_at:2", "flood", "flood_graceful", "flood_junk")
                     if not hostile and m != moments[(behaviours.index(b) + exits.index(e)) % 3]:
                         continue
                 cases.append({"behaviour": b, "exit": e, "moment": m})
